@@ -34,6 +34,7 @@ type creq struct {
 }
 
 type convWorld struct {
+	sibling bool
 	f       *flowNode
 	bu      *Universe
 	su      *syncUniverse
@@ -433,7 +434,9 @@ func (w *convWorld) isChain(c []int64) bool {
 }
 
 func (w *convWorld) peerSet(c []int64) {
-	if !w.isChain(c) || !(len(w.best) < len(c)) {
+	// cfg sibling: the peer may also replace its tip by a chain of the same length (a sibling with more work)
+	same := w.sibling && len(w.best) == len(c) && len(c) > 0 && w.best[len(c)-1] != c[len(c)-1]
+	if !w.isChain(c) || !(len(w.best) < len(c) || same) {
 		return
 	}
 	k := 0
@@ -649,7 +652,7 @@ func runConverge(c *Case) ([]Obs, any) {
 	f := newFlowNodeCfg(store, bu, tu, testCfg{delay: 2000, mempool: cfgInt(c, "mempool", 0) != 0}, start)
 	f.node.VerifState().MarkConnected()
 	w := &convWorld{f: f, bu: bu, su: su, start: start, parents: parents, m: int(cfgInt(c, "m", 2000)),
-		best: []int64{0}, chanl: []cmsg{{kind: 1}}, bg: cfgInt(c, "bgblocks", 0) != 0}
+		best: []int64{0}, chanl: []cmsg{{kind: 1}}, bg: cfgInt(c, "bgblocks", 0) != 0, sibling: cfgInt(c, "sibling", 0) != 0}
 	defer w.newConnection()
 
 	var result []Obs
